@@ -180,6 +180,8 @@ func newC15World(r *rng, detached bool) *c15World {
 	mustGit(w.a, "commit", "-q", "-m", "initial")
 	mustGit(w.a, "branch", "feature")
 	mustGit(w.a, "branch", "bugs/fix-1") // a branch named like a namespace
+	mustGit(w.a, "branch", "topic/bugs/login-crash")
+	mustGit(w.a, "branch", "fix/identities/rename")
 	mustGit(w.a, "tag", "v1")
 	mustGit(w.a, "tag", "-a", "v1-annotated", "-m", "annotated")
 	os.WriteFile(filepath.Join(w.a, "second.txt"), []byte("2\n"), 0o644)
@@ -451,10 +453,23 @@ func c15Library(c *runCtx, r *rng, dir string, log *[]string) {
 		b.Append(op)
 		g.record(op, isC)
 	}
-	restore()
 	if err := b.Commit(repo); err != nil {
 		c.violation(c.nCases, "C15/library-commit-failed", err.Error(), nil)
 	}
+	// several operations with attachments of their own (and one shared) in a single commit
+	{
+		f := func() repository.Hash { return fileSource(r) }
+		shared := f()
+		b2 := bug.NewBug()
+		cop := bug.NewCreateOp(author, 1_650_000_000, "with attachments", "see files", []repository.Hash{shared, f()})
+		b2.Append(cop)
+		b2.Append(bug.NewAddCommentOp(author, 1_650_000_001, "more files", []repository.Hash{shared, f(), f()}))
+		b2.Append(bug.NewAddCommentOp(author, 1_650_000_002, "and another", []repository.Hash{f()}))
+		if err := b2.Commit(repo); err != nil {
+			c.violation(c.nCases, "C15/library-commit-failed", err.Error(), nil)
+		}
+	}
+	restore()
 	c.count("action=library bug with attachments")
 	// configuration through git-bug's own configuration interface
 	cfg := repo.LocalConfig()
